@@ -109,7 +109,7 @@ theorem addNew_disk (env : Env) (s : State) (sp sp' : Spec) (n : Nat) (h : Disk 
     (e_seq : s2.nextSeq = s.nextSeq + 1) (e_mp : s2.maxdatfilepos = s.maxdatfilepos) (e_mi : s2.maxdatfileidx = s.maxdatfileidx) :
     Disk env s2 sp' (n + 1) := by
   have hql : s2.queue.length = s.queue.length + 1 := by rw [e_q]; simp
-  refine ⟨?_, ?_, ?_, ?_, ?_, ?_, ?_, ?_, ?_, ?_, ?_, ?_⟩
+  refine ⟨?_, ?_, ?_, ?_, ?_, ?_, ?_, ?_, ?_, ?_, ?_, ?_, (by rw [e_fs]; intro p h1 h2; have := h.allidx p h1 h2; omega)⟩
   · intro k' r p hh hp
     rw [e_idx] at hh
     rw [e_fs]
@@ -319,7 +319,8 @@ theorem loadRecord_valid (env : Env) (a : LoadAcc) (c : Bytes) (r0 : Rec) (hv : 
     · split <;> omega
 
 theorem loadRecord_invalid (env : Env) (hadv : env.advInvalid = true) (a : LoadAcc) (c : Bytes) (hv : isInvalidRec c = true) :
-    loadRecord env a c = { a with maxidxfilepos := a.maxidxfilepos + 136 } := by
+    loadRecord env a c = { bumpInvalid a (c.getD 0 0).toNat c with
+      maxidxfilepos := (bumpInvalid a (c.getD 0 0).toNat c).maxidxfilepos + 136 } := by
   have hv' : hasFlag (c.getD 0 0).toNat BLOCK_INVALID = true := hv
   unfold loadRecord
   simp only [hv', ↓reduceIte, hadv, recsize_eq]
@@ -343,15 +344,33 @@ theorem linv_step (env : Env) (hadv : env.advInvalid = true) (s : State) (sp : S
   cases hv : isInvalidRec (recAt s.fs.idx pos) with
   | true =>
     rw [loadRecord_invalid env hadv a _ hv]
-    refine ⟨by simp only; rw [h.mip], by omega, ?_, ?_, h.l3, h.l4⟩
+    obtain ⟨b1, b2, _, b4, b5, b6, b7⟩ := bumpInvalid_fields a ((recAt s.fs.idx pos).getD 0 0).toNat (recAt s.fs.idx pos)
+    have hfield := hD.allidx pos hpm hpos
+    refine ⟨by simp only; rw [b2, h.mip], by omega, ?_, ?_, ?_, ?_⟩
     · intro k r hh
+      simp only [b1] at hh
       obtain ⟨r0, p, a1, a2⟩ := h.l1 k r hh
       exact ⟨r0, p, by omega, a2⟩
     · intro k r0 p h1 h2 h3 h4
+      simp only [b1]
       have pm := (hI.ipos k r0 p h1 h2).2
       by_cases e : p = pos
       · subst e; rw [hv] at h4; cases h4
       · exact h.l2 k r0 p h1 h2 (by omega) h4
+    · intro k r hh
+      simp only [b1] at hh
+      obtain ⟨c1, c2⟩ := h.l3 k r hh
+      simp only
+      refine ⟨by omega, ?_⟩
+      intro e
+      have e' : (bumpInvalid a ((recAt s.fs.idx pos).getD 0 0).toNat (recAt s.fs.idx pos)).maxdatfileidx = a.maxdatfileidx := by omega
+      rw [b5 e']; exact c2 (by omega)
+    · obtain ⟨c1, c2⟩ := h.l4
+      simp only
+      constructor
+      · have : max a.maxdatfileidx (field (recAt s.fs.idx pos) 28 32) ≤ n := Nat.max_le.mpr ⟨c1, hfield⟩
+        omega
+      · omega
   | false =>
     obtain ⟨r0, hr0, hp0⟩ := hD.disk pos hpm hpos hv
     obtain ⟨mk, md⟩ := hD.mem _ r0 pos hr0 hp0
